@@ -1046,6 +1046,26 @@ def apply(it, fn, args, dest_ty, term, caller, depth, M):
     if path.startswith("core::string::String") or path.startswith("core::str::<impl str>") or path.startswith("core::str"):
         if name in ("as_str", "as_bytes", "as_mut_str", "borrow", "deref", "as_ref") and len(args) == 1 and isinstance(args[0], Ref):
             return args[0]
+        if name in ("trim", "trim_end", "trim_start", "trim_ascii", "trim_ascii_end", "trim_ascii_start") and len(args) == 1 and isinstance(args[0], Ref):
+            s2 = seq_of(it, args[0])
+            if s2 is not None:
+                v_, off_, cnt_ = s2
+                el_ = list(v_.elems[off_:off_ + cnt_])
+                if all(isinstance(e, Int) and e.is_conc() for e in el_):
+                    ws = (9, 10, 11, 12, 13, 32)
+                    if any(e.val >= 0x80 for e in el_) and "ascii" not in name:
+                        raise M.Undecided("%s of non-ASCII text" % name)
+                    a_, b_ = 0, len(el_)
+                    if name in ("trim", "trim_end", "trim_ascii", "trim_ascii_end"):
+                        while b_ > a_ and el_[b_ - 1].val in ws:
+                            b_ -= 1
+                    if name in ("trim", "trim_start", "trim_ascii", "trim_ascii_start"):
+                        while a_ < b_ and el_[a_].val in ws:
+                            a_ += 1
+                    base_off = args[0].off if isinstance(args[0].off, int) else (args[0].off.val if isinstance(args[0].off, Int) and args[0].off.is_conc() else None)
+                    if base_off is not None:
+                        return M.Ref(args[0].cell, args[0].path, base_off + a_, b_ - a_, args[0].tags)
+                raise M.Undecided("%s of text whose bytes are not all known" % name)
         if name == "push_str" and len(args) == 2 and isinstance(args[0], Ref):
             tgt = it.read(args[0].cell, args[0].path)
             s2 = seq_of(it, args[1])
